@@ -411,13 +411,37 @@ def compare_logs(ctx, stream, nodes, tag):
     if not ctx.model_ok:
         ctx.count(stream, n=len(reqs))
         return
-    reps = [norm_model(r) for r in core.Driver("drv_c06").ask(reqs)]
-    c2, a2, b2 = [], [], []
-    for c, a, b in zip(cases, impl, reps):
-        if a is None:
-            continue
-        c2.append(c); a2.append(a); b2.append(b)
-    ctx.compare_stream(stream, c2, a2, b2)
+    # queued: one driver process per shard answers everything (flush_model)
+    q = ctx.__dict__.setdefault("_c06_queue", [])
+    q.append(("node", stream, reqs, cases, impl))
+
+
+def flush_model(ctx):
+    """send every queued model request in ONE batch and compare"""
+    q = ctx.__dict__.pop("_c06_queue", [])
+    if not q:
+        return
+    allreq = []
+    for item in q:
+        allreq.extend(item[2])
+    reps = core.Driver("drv_c06").ask(allreq)
+    pos = 0
+    for kind, stream, reqs, cases, impl in q:
+        mine = reps[pos:pos + len(reqs)]
+        pos += len(reqs)
+        if kind == "node":
+            c2, a2, b2 = [], [], []
+            for c, a, b in zip(cases, impl, mine):
+                if a is None:
+                    continue
+                c2.append(c); a2.append(a); b2.append(norm_model(b))
+            ctx.compare_stream(stream, c2, a2, b2)
+        else:
+            tag, kindd = cases[0]["tag"], cases[0]["dest"][0]
+            model = sorted(core.canon({"lan": d["lan"], "mac": d["mac"], "src": d["src"], "dst": d["dst"],
+                                       "data": d["data"]}) for d in mine[0]["deliveries"])
+            ctx.compare_stream(stream, cases, impl, [{"deliveries": model}],
+                               sig=lambda c, m: (tag, kindd, min(len(m["deliveries"]), 6)))
 
 
 # --------------------------------------------------------------------------
@@ -1120,17 +1144,14 @@ def global_compare(ctx, world, spec, sidx, dest, got, topo, tag):
     if not ctx.model_ok:
         return
     req = {"op": "deliver_from", "topo": topo, "from": sidx, "dest": dest, "er": False, "prio": 0, "data": PAYLOAD}
-    rep = core.Driver("drv_c06").ask([req])[0]
-    model = sorted(core.canon({"lan": d["lan"], "mac": d["mac"], "src": d["src"], "dst": d["dst"], "data": d["data"]})
-                   for d in rep["deliveries"])
     impl = []
     for (lan, mac), ups in got.items():
         for u in ups:
             impl.append(core.canon({"lan": lan, "mac": mac, "src": u["src"], "dst": u["dst"], "data": u["data"]}))
     impl.sort()
-    ctx.compare_stream("e2e-global", [{"kind": "e2e", "tag": tag, "spec": spec, "from": sidx, "dest": dest}],
-                       [{"deliveries": impl}], [{"deliveries": model}],
-                       sig=lambda c, m: (tag, dest[0], min(len(m["deliveries"]), 6)))
+    case = {"kind": "cycle" if tag == "cycle" else "e2e", "tag": tag, "spec": spec, "from": sidx, "dest": dest,
+            "send": [sidx, dest], "cache_mode": world.cache_mode, "caches": getattr(world, "caches_list", None)}
+    ctx.__dict__.setdefault("_c06_queue", []).append(("global", "e2e-global", [req], [case], [{"deliveries": impl}]))
 
 
 def run_tree_scenario(ctx, vt, sc, node_lockstep=True):
@@ -1242,6 +1263,7 @@ def run_cycle_scenario(ctx, vt, sc):
     spec = sc["spec"]
     vt.reset()
     world = World(spec, "given", vt, caches=sc.get("caches") or empty_tables(spec))
+    world.caches_list = sc.get("caches_list")
     world.frames = []
     case = {"kind": "cycle", "spec": spec, "caches": sc.get("caches_list"), "send": sc["send"]}
     sidx, dest = sc["send"]
@@ -1349,6 +1371,7 @@ def shard_e2e(ctx, spec):
         run_cycle_scenario(ctx, vt, sc)
         if i == 0 and spec["shard"] == 0:
             ctx.sample({"stream": "e2e-cycle", "spec": sc["spec"], "send": sc["send"]})
+    flush_model(ctx)
 
 
 # --------------------------------------------------------------------------
@@ -1375,6 +1398,7 @@ def run_case(ctx, vt, case):
         run_cycle_scenario(ctx, vt, sc)
     else:
         raise core.Infra("unknown case kind %r" % (kind,))
+    flush_model(ctx)
 
 
 def fix_spec(spec):
@@ -1418,8 +1442,8 @@ def run(ctx):
     preflight(ctx)
     run_corpus(ctx, vt)
     if ctx.quick:
-        lock = [{"shard": i, "n": 60} for i in range(8)]
-        e2e = [{"shard": i, "trees": 4, "cycles": 2, "nsends": 4} for i in range(16)]
+        lock = [{"shard": i, "n": 60} for i in range(16)]
+        e2e = [{"shard": i, "trees": 6, "cycles": 3, "nsends": 5} for i in range(16)]
     else:
         lock = [{"shard": i, "n": 700} for i in range(16)]
         # every (source, kind, destination) on 2 trees per shard (capped), a large sample on 24 more
